@@ -1,6 +1,7 @@
 package main
 
 import (
+	"sync/atomic"
 	"bufio"
 	"bytes"
 	"context"
@@ -327,6 +328,18 @@ func streamRuntime(o *Out, rng *rand.Rand, thorough bool, _ []string) {
 			SkipSystem:         true,
 			SkipProcess:        true,
 		}
+		// every second run counts the samples that were generated (a custom collector is called once per sample):
+		// all of them must be in the files when CollectRuntime returns nil
+		generated := int64(-1)
+		idKey := "id"
+		if i%2 == 1 {
+			generated = 0
+			idKey = "runtime.id"
+			opts.Collectors = metrics.Collectors{{Name: "verif", Operation: func(context.Context) *birch.Document {
+				n := atomic.AddInt64(&generated, 1)
+				return birch.NewDocument(birch.EC.Int64("n", n))
+			}}}
+		}
 		ctx, cancel := context.WithTimeout(context.Background(), time.Duration(20+rng.Intn(150))*time.Millisecond)
 		err := metrics.CollectRuntime(ctx, opts)
 		cancel()
@@ -349,9 +362,9 @@ func streamRuntime(o *Out, rng *rand.Rand, thorough bool, _ []string) {
 			it := ftdc.ReadMetrics(context.Background(), bytes.NewReader(b))
 			var ids []string
 			for it.Next() {
-				v, ok := it.Document().Lookup("id").Int64OK()
+				v, ok := it.Document().Lookup(idKey).Int64OK()
 				if !ok {
-					if v32, ok32 := it.Document().Lookup("id").Int32OK(); ok32 {
+					if v32, ok32 := it.Document().Lookup(idKey).Int32OK(); ok32 {
 						v = int64(v32)
 					} else {
 						bad = "a sample has no id"
@@ -369,6 +382,16 @@ func streamRuntime(o *Out, rng *rand.Rand, thorough bool, _ []string) {
 		line := fmt.Sprintf("runtime-trace %d | %s", opts.SampleCount, strings.Join(parts, " | "))
 		if err != nil {
 			o.violation(line, "CollectRuntime returned an error", err.Error())
+		}
+		if g := atomic.LoadInt64(&generated); g >= 0 && err == nil {
+			total := 0
+			for _, p := range parts {
+				total += len(strings.Fields(p))
+			}
+			if int64(total) != g {
+				o.violation(line, "CollectRuntime returned nil but the files do not hold every sample that was generated",
+					map[string]int64{"generated": g, "in_files": int64(total)})
+			}
 		}
 		if bad != "" {
 			o.violation(line, bad, nil)
